@@ -282,8 +282,10 @@ class SimpleForwardModel(ForwardModel):
                                                    Pl,
                                                    mu_profile)
         self.altitude_profile = z[:-1]
-        self.scaleheight_profile = H[:-1]
-        self.gravity_profile = g[:-1]
+        # z holds the nlayers+1 layer boundaries whereas H and g are
+        # already defined per layer
+        self.scaleheight_profile = H
+        self.gravity_profile = g
         self.altitude_boundaries = z
         self.deltaz = deltaz
 
